@@ -226,3 +226,119 @@ theorem C20_trans_expectIdent : ∀ s : GB.Bytes, GB.Generated.Trans.expectIdent
 example : GB.Generated.Trans.checkIdent [195, 169] = true := by decide
 example : GB.Generated.Trans.checkIdent [97, 49] = false := by decide
 example : GB.Generated.Trans.expectIdent [49, 97] = true := by decide
+
+/-! ### gwbased `expectPChars`: a RUNE loop with the state `st` (0 = init, 1 = pct1, 2 = pct2) -/
+
+/-- the loop body of `expectPChars`: state `st`, rune `r` -/
+def GB.C20.TransTie.pcBody (st : Int) (r : Int) : Ctl Bool Int :=
+  if (st != (0 : Int)) then
+    if (!(GB.Generated.Trans.isHexDigit r)) then Ctl.ret true
+    else
+      if (st == (1 : Int)) then Ctl.next (2 : Int)
+      else if (st == (2 : Int)) then Ctl.next (0 : Int)
+      else Ctl.next st
+  else
+    if ((decide ((65 : Int) ≤ r)) && (decide (r ≤ (90 : Int)))) then Ctl.next st
+    else if ((decide ((97 : Int) ≤ r)) && (decide (r ≤ (122 : Int)))) then Ctl.next st
+    else if ((decide ((48 : Int) ≤ r)) && (decide (r ≤ (57 : Int)))) then Ctl.next st
+    else
+      if ((r == (45 : Int)) || (r == (46 : Int)) || (r == (95 : Int)) || (r == (126 : Int))) then Ctl.next st
+      else if ((r == (33 : Int)) || (r == (36 : Int)) || (r == (38 : Int)) || (r == (39 : Int)) || (r == (40 : Int)) || (r == (41 : Int)) || (r == (42 : Int)) || (r == (43 : Int)) || (r == (44 : Int)) || (r == (59 : Int)) || (r == (61 : Int))) then Ctl.next st
+      else if ((r == (58 : Int)) || (r == (64 : Int))) then Ctl.next st
+      else if (r == (37 : Int)) then Ctl.next (1 : Int)
+      else Ctl.ret true
+
+/-- what `expectPChars` returns after the loop -/
+def GB.C20.TransTie.pcFin : Out Bool Int → Bool
+  | .ret r => r
+  | .done st => if (st != (0 : Int)) then true else false
+
+set_option maxRecDepth 100000 in
+theorem GB.C20.TransTie.pcBody0 (b : UInt8) : pcBody 0 (Int.ofNat b.toNat) =
+    if GB.C20.isPcharByte b then Ctl.next 0 else if b == GB.C20.cPct then Ctl.next 1 else Ctl.ret true := by
+  have := byte_forall (fun b => decide (pcBody 0 (Int.ofNat b.toNat) =
+    if GB.C20.isPcharByte b then Ctl.next 0 else if b == GB.C20.cPct then Ctl.next 1 else Ctl.ret true)) (by decide) b
+  exact of_decide_eq_true this
+
+set_option maxRecDepth 100000 in
+theorem GB.C20.TransTie.pcBody1 (b : UInt8) : pcBody 1 (Int.ofNat b.toNat) =
+    if GB.C20.isHexDigit b then Ctl.next 2 else Ctl.ret true := by
+  have := byte_forall (fun b => decide (pcBody 1 (Int.ofNat b.toNat) = if GB.C20.isHexDigit b then Ctl.next 2 else Ctl.ret true)) (by decide) b
+  exact of_decide_eq_true this
+
+set_option maxRecDepth 100000 in
+theorem GB.C20.TransTie.pcBody2 (b : UInt8) : pcBody 2 (Int.ofNat b.toNat) =
+    if GB.C20.isHexDigit b then Ctl.next 0 else Ctl.ret true := by
+  have := byte_forall (fun b => decide (pcBody 2 (Int.ofNat b.toNat) = if GB.C20.isHexDigit b then Ctl.next 0 else Ctl.ret true)) (by decide) b
+  exact of_decide_eq_true this
+
+theorem GB.C20.TransTie.isHexDigit_high (r : Int) (h : 103 ≤ r) : GB.Generated.Trans.isHexDigit r = false := by
+  unfold GB.Generated.Trans.isHexDigit
+  have h1 : ¬ ((48 : Int) ≤ r ∧ r ≤ 57) := by omega
+  have h2 : ¬ ((65 : Int) ≤ r ∧ r ≤ 70) := by omega
+  have h3 : ¬ ((97 : Int) ≤ r ∧ r ≤ 102) := by omega
+  simp [h1, h2, h3]
+
+theorem GB.C20.TransTie.pcBody_stop (st r : Int) (h : 128 ≤ r) : pcBody st r = Ctl.ret true := by
+  have hx : GB.Generated.Trans.isHexDigit r = false := isHexDigit_high r (by omega)
+  unfold pcBody
+  by_cases hs : st = 0
+  · subst hs
+    have h1 : ¬ ((65 : Int) ≤ r ∧ r ≤ 90) := by omega
+    have h2 : ¬ ((97 : Int) ≤ r ∧ r ≤ 122) := by omega
+    have h3 : ¬ ((48 : Int) ≤ r ∧ r ≤ 57) := by omega
+    have e : ∀ k : Int, k < 128 → (r == k) = false := by
+      intro k hk; exact beq_false_of_ne (by omega)
+    simp [h1, h2, h3, e]
+  · simp [hs, hx]
+
+/-- the byte-level loop = the model's state machine, in each of its three states -/
+theorem GB.C20.TransTie.pc_bytes : ∀ (t : Bytes) (off : Int),
+    pcFin (loop (enumFrom off t) (0 : Int) (fun p st => pcBody st (Int.ofNat p.2.toNat))) = (!GB.C20.gwExpectPChars 0 t) ∧
+    pcFin (loop (enumFrom off t) (1 : Int) (fun p st => pcBody st (Int.ofNat p.2.toNat))) = (!GB.C20.gwExpectPChars 1 t) ∧
+    pcFin (loop (enumFrom off t) (2 : Int) (fun p st => pcBody st (Int.ofNat p.2.toNat))) = (!GB.C20.gwExpectPChars 2 t) := by
+  intro t
+  induction t with
+  | nil => intro off; exact ⟨rfl, rfl, rfl⟩
+  | cons b r ih =>
+    intro off
+    obtain ⟨ih0, ih1, ih2⟩ := ih (off + 1)
+    have hb0 := pcBody0 b
+    have hb1 := pcBody1 b
+    have hb2 := pcBody2 b
+    refine ⟨?_, ?_, ?_⟩
+    · simp only [enumFrom, GB.C20.gwExpectPChars]
+      by_cases h1 : GB.C20.isPcharByte b = true
+      · rw [loop_cons_next _ _ _ (0 : Int) _ (by simp only [hb0, h1, if_true])]
+        simp only [h1, if_true]; exact ih0
+      · have h1' : GB.C20.isPcharByte b = false := by simpa using h1
+        by_cases h2 : (b == GB.C20.cPct) = true
+        · rw [loop_cons_next _ _ _ (1 : Int) _ (by simp only [hb0, h1', h2, Bool.false_eq_true, if_false, if_true])]
+          simp only [h1', h2, Bool.false_eq_true, if_false, if_true]; exact ih1
+        · have h2' : (b == GB.C20.cPct) = false := by simpa using h2
+          rw [loop_cons_ret _ _ _ true _ (by simp only [hb0, h1', h2', Bool.false_eq_true, if_false])]
+          simp [h1', h2', pcFin]
+    · simp only [enumFrom, GB.C20.gwExpectPChars]
+      by_cases h1 : GB.C20.isHexDigit b = true
+      · rw [loop_cons_next _ _ _ (2 : Int) _ (by simp only [hb1, h1, if_true])]
+        simp only [h1, Bool.true_and]; exact ih2
+      · have h1' : GB.C20.isHexDigit b = false := by simpa using h1
+        rw [loop_cons_ret _ _ _ true _ (by simp only [hb1, h1', Bool.false_eq_true, if_false])]
+        simp [h1', pcFin]
+    · simp only [enumFrom, GB.C20.gwExpectPChars]
+      by_cases h1 : GB.C20.isHexDigit b = true
+      · rw [loop_cons_next _ _ _ (0 : Int) _ (by simp only [hb2, h1, if_true])]
+        simp only [h1, Bool.true_and]; exact ih0
+      · have h1' : GB.C20.isHexDigit b = false := by simpa using h1
+        rw [loop_cons_ret _ _ _ true _ (by simp only [hb2, h1', Bool.false_eq_true, if_false])]
+        simp [h1', pcFin]
+
+/-- gwbased `expectPChars` (error ⇔ the model's state machine rejects), for EVERY byte string -/
+theorem C20_trans_expectPChars : ∀ t : GB.Bytes, GB.Generated.Trans.expectPChars t = !GB.C20.gwExpectPChars 0 t := by
+  intro t
+  show pcFin (loop (runes t) (0 : Int) (fun p st => pcBody st p.2)) = _
+  rw [loop_runes_bytes (fun p st => pcBody st p.2) true (fun off r st h => pcBody_stop st r h)]
+  exact (pc_bytes t 0).1
+
+example : GB.Generated.Trans.expectPChars [37, 52, 49] = false := by decide   -- "%41"
+example : GB.Generated.Trans.expectPChars [37, 52] = true := by decide        -- "%4"
